@@ -44,6 +44,7 @@ func (t *Templater) renderProbe(probe *health.Probe, procConf *types.ProcessConf
 
 	if probe.Exec != nil {
 		probe.Exec.Command = t.RenderWithExtraVars(probe.Exec.Command, procConf.Vars)
+		probe.Exec.WorkingDir = t.RenderWithExtraVars(probe.Exec.WorkingDir, procConf.Vars)
 	} else if probe.HttpGet != nil {
 		probe.HttpGet.Path = t.RenderWithExtraVars(probe.HttpGet.Path, procConf.Vars)
 		probe.HttpGet.Host = t.RenderWithExtraVars(probe.HttpGet.Host, procConf.Vars)
